@@ -11,7 +11,9 @@ It is a corollary of the stronger `page_roundtrip_cycle`, which is the parallel-
   asked: rows, X/26, X/27, X/28, M/29, 8/30, undecodable bytes, any magazine);
 * a cycle `x0 :: xs` of transmissions of magazine `m` (`SegOk`): header of a decimal page (any sub-code, control bits,
   erase flag on/off), then until the next header of `m` any items: rows 1..25 of the page (any subset / order /
-  repeats, odd-parity bytes) and `Good` packets of the OTHER SEVEN magazines (whole pages of them being opened, stored,
+  repeats, odd-parity bytes), (round 6, `Item.ownx`) the page's OWN packets X/26, X/27, X/28 - any designation but
+  X/28/3, which makes packet.c discard a text page - and M/29 of its magazine, anywhere between the rows (they change
+  enhancement / link / extension data only: `Ttx.own_aux_step`, Props/C02Own), and `Good` packets of the OTHER SEVEN magazines (whole pages of them being opened, stored,
   announced in between; a foreign header's page number must decode, E1);
 * a final header `fin` of magazine `m` (time-filling or decimal; only its page number must decode), neighbours in the
   cycle carry different page numbers (`Alt`).
@@ -62,6 +64,9 @@ def PageClaim (m : Nat) (s sF : St) (finPage : Nat) (pre : List Seg) (x : Seg) (
     ∧ (SubCode x.t.subno → (∀ y ∈ post, y.t.page = x.t.page → SubCode y.t.subno ∧ y.t.subno ≠ x.t.subno) →
         finPage ≠ x.t.page →
         q.subno = x.t.subno ∧ (cacheGet sF.net.cache x.t.pgno x.t.subno 0xFFFFFFFF).map (·.1) = some q)
+    -- (round 6) the entry carries the FLOF links (`link[]`, `have_flof`) and the X/28 record (`x28_designations`; the
+    -- extension when X/28/0, /1 or /4 was received) of the page in progress at the moment its terminating header arrives
+    ∧ CarriesAux q ((run (run s (stream pre)).1 x.pkts).1.rp m).page
 
 /-- **page_roundtrip_cycle** (parallel mode, up to eight magazines interleaved; see the file header). -/
 theorem page_roundtrip_cycle (tmpl : List Nat) (off m : Nat) (hm : m < 8)
@@ -96,7 +101,7 @@ theorem page_roundtrip_cycle (tmpl : List Nat) (off m : Nat) (hm : m < 8)
   · intro pre x post e
     show PageClaim m s (step sE fin).1 finPage pre x post
     rw [e] at hcl
-    obtain ⟨q, rest, pt, hF, hpt, hfind⟩ := claims_split m cT pre s x post hcl
+    obtain ⟨q, rest, pt, hF, hpt, hfind, hcar⟩ := claims_split m cT pre s x post hcl
     have hxok : SegOk tmpl off m x := hx x (by rw [e]; simp)
     have hpostok : ∀ y ∈ post, SegOk tmpl off m y := fun y hy => hx y (by rw [e]; simp [hy])
     have hpage : x.t.page < 256 := a16_lt x.hdr 2 _ hxok.hdr.page
@@ -113,7 +118,7 @@ theorem page_roundtrip_cycle (tmpl : List Nat) (off m : Nat) (hm : m < 8)
         unfold Tx.pgno at this
         rw [hxok.mag] at this
         exact tx_pgno_ne m _ _ hne this
-    refine ⟨q, pt, hF, hpt, ?_, ?_⟩
+    refine ⟨q, pt, hF, hpt, ?_, ?_, hcar⟩
     · intro hlast hfinne
       have hk := known_of_claim m cT x post q rest hxok.mag hpage hF.pgno
         (fun y hy => ⟨(hpostok y hy).mag, hlast y hy⟩) hfind
@@ -223,6 +228,7 @@ theorem page_roundtrip_cycle_fetch (tmpl : List Nat) (off m : Nat) (hm : m < 8)
               exact ⟨this.2.1, this.2.2.1⟩
             · exact ih (fun x hx => hall x (List.mem_cons_of_mem _ hx)) r hr
           | foreign m' k p => exact ih (fun x hx => hall x (List.mem_cons_of_mem _ hx)) r hr
+          | ownx k p => exact ih (fun x hx => hall x (List.mem_cons_of_mem _ hx)) r hr
       exact hall x.items (fun it hit => (hxok.items it hit).1) r hr
     obtain ⟨v, hv, hvm⟩ := merged_row_received _ x.rows r.1 (by rw [hbl]; omega)
       (by rw [List.any_eq_true]; exact ⟨r, hr, by simp⟩)
